@@ -128,7 +128,8 @@ bool MaxSize::writeCheck( const detail::LogMsg&, const std::string& msg_text)
 void MaxSize::written( const detail::LogMsg&, const std::string& msg_text)
 {
 
-   mCurrentFilesize += msg_text.length();
+   // the message text plus the line terminator written by writeMessage()
+   mCurrentFilesize += msg_text.length() + 1;
 
 } // MaxSize::written
 
